@@ -692,6 +692,8 @@ where
             let res = time::timeout(timeout, rx.recv()).await;
             if res.is_err() {
                 self.ldap.id_scrub_tx.send(self.msgid)?;
+                // Nothing more will be read from this Search; finish() must not scrub again.
+                self.rx = None;
             }
             res?
         } else {
@@ -718,10 +720,12 @@ where
     }
 
     pub(crate) async fn finish_inner(&mut self) -> LdapResult {
-        // Only a Search which is still in progress needs its ID scrubbed. In the Error
-        // state that has already been done (timeout) or the ID is gone (closed channel);
-        // asking again could hit an operation which has been given the same ID since.
-        if self.state == StreamState::Active {
+        // Only a Search which is still in progress needs its ID scrubbed, and that is the case
+        // exactly while its receiver is here: after the final result, a timeout (the scrub has
+        // been sent) or a closed channel (the ID is gone) the receiver is dropped, and asking
+        // again could hit an operation which has been given the same ID since. The stream's
+        // state doesn't tell: an adapter may have failed the stream with an error of its own.
+        if self.rx.is_some() {
             if let Err(e) = self.ldap.id_scrub_tx.send(self.msgid) {
                 warn!(
                     "error sending scrub message from SearchStream::finish() for ID {}: {}",
